@@ -507,6 +507,10 @@ func (i If) byteCode(srcsel int, fl flags.Pass, cr compResult) bytecode.Type {
 		*cr.DS = append(*cr.DS, value.Nil)
 		instr = bytecode.New(bytecode.PUSH) | bytecode.EncodeSrc(0, bytecode.AddrDS, ix)
 		*cr.CS = append(*cr.CS, instr)
+
+		// whichever way we got here there is a value on the stack, even if the
+		// true case always returns (the false case pushed no result)
+		dest = bytecode.EncodeSrc(srcsel, bytecode.AddrStck, 0)
 	}
 
 	// patch the JMPF
@@ -625,7 +629,9 @@ func pushingWhile(w While, srcsel int, fl flags.Pass, cr compResult) bytecode.Ty
 	body := w.Body.byteCode(0, fl.Data().Pass(flags.WithDiscard(false)), cr)
 
 	if body.Src0() == bytecode.AddrInv {
-		panic("while body result is invalid in non-discarding while")
+		// the body always returns, the rest of the loop is unreachable; lay it
+		// out as if the body had left its value on the stack
+		body = bytecode.EncodeSrc(0, bytecode.AddrStck, 0)
 	}
 
 	jumpBack := bodyAddr
